@@ -288,6 +288,24 @@ func TestVerifC06(t *testing.T) {
 			c06E2ECompare(r, src0, strings.Replace(mk(""), "      matrix:\n", "      matrix: ${{ fromJSON(vars.M) }}\n", 1), "matrix-dynamic")
 		}
 	}
+	// a static include entry that re-types a row key, made dynamic (as a whole / as an element): the
+	// row's own literal type must not be trusted any more
+	for _, lit := range rowLits {
+		for _, inc := range []string{"{x: {a: s}}", "{x: [p]}", "{x: 1}", "{y: {a: s}}"} {
+			for _, cons := range consumers {
+				idx++
+				if !r.Mine(idx) {
+					continue
+				}
+				mk := func(include string) string {
+					return "on: push\njobs:\n  a:\n    runs-on: ubuntu-latest\n    strategy:\n      matrix:\n        x: " + lit + "\n" + include + "    steps:\n      - run: echo ${{ " + cons + " }}\n"
+				}
+				src0 := mk("        include:\n          - " + inc + "\n")
+				c06E2ECompare(r, src0, mk("        include: ${{ fromJSON(vars.INC) }}\n"), "matrix-static-include-made-dynamic")
+				c06E2ECompare(r, src0, mk("        include:\n          - ${{ fromJSON(vars.INC) }}\n"), "matrix-static-include-element-made-dynamic")
+			}
+		}
+	}
 	// include given as a list: every list of 1-3 elements over {two literal mappings, a statically
 	// known object expression, an unknown expression}; loosening = one known element replaced by the
 	// unknown one (the merged matrix type must stay at least as permissive, whatever the order)
